@@ -322,12 +322,24 @@ def run(ctx, prop):
                         if stale:
                             add("C10/stale/%s/%s" % ("super-type" if kind == "supers" else "inherited-member", tname),
                                 cid, i, {"expected": d[1], "observed": d[2]})
+                # Analysis errors recorded for the REMAINING files are not re-computed when another file is edited
+                # (no dependency tracking on type names): after an earlier `update` step they may be stale with
+                # respect to a fresh analysis. That staleness is not a trace of the removed file, so it is not judged
+                # by C10 (false alarm found by the thorough tier: load{a=UseHp,b=FooInh,c=ClsPlain}; update(c,Base);
+                # unset(a) kept b's "type Base not found" error).
+                edited_before = any(cc["op"] == "update" for cc, _f in hist[:i])
+
+                def stale_analysis_errors(name):
+                    return edited_before and name.startswith("diagnostic.diagnostics")
+
                 # memory: every modelled map must not be larger than in Ideal(remaining) ...
                 ideal = real_sizes(full["ideal_sizes"])
                 fresh_sizes = {d[0][len("/sizes/"):]: (d[1], d[2]) for d in s.get("fresh", []) if d[0].startswith("/sizes/")}
                 dep_edge = any(re.fullmatch(r"files/\*/requires/#", gen_path(m[0])) for m in s.get("mentions", []))
                 model_bad = {d[0][len("sizes/"):]: (d[1], d[2]) for d in s.get("model", []) if d[0].startswith("sizes/")}
                 for name, (want, got) in model_bad.items():
+                    if stale_analysis_errors(name):
+                        continue
                     if name in ideal and isinstance(got, int) and got > ideal[name]:
                         if name.startswith("dependency.") and dep_edge:
                             add("C10/dependency-edge-to-removed-file", cid, i, {name: [ideal[name], got]})
@@ -337,6 +349,8 @@ def run(ctx, prop):
                 for k, v in full["sizes"].items():
                     if v > full["ideal_sizes"][k]:
                         names = SIZE_MAP[k]
+                        if stale_analysis_errors(names[0]):
+                            continue
                         if k.startswith("dependency_"):
                             add("C10/dependency-edge-to-removed-file", cid, i, {names[0]: [full["ideal_sizes"][k], v]})
                         else:
@@ -350,6 +364,8 @@ def run(ctx, prop):
                     for name, (fresh_v, got) in fresh_sizes.items():
                         if name in ("vfs.file_id_map", "vfs.file_path_map"):
                             continue        # interning after unset: judged through the model sizes
+                        if stale_analysis_errors(name):
+                            continue
                         if isinstance(got, int) and isinstance(fresh_v, int) and got > fresh_v:
                             if name.startswith("dependency.") and dep_edge:
                                 add("C10/dependency-edge-to-removed-file", cid, i, {name: [fresh_v, got]})
